@@ -36,6 +36,7 @@ def run_job(job):
     rig = VirtRig(cfg, job.get('schedule') or [], shape_seed=job.get('shape_seed', 0), beh=_beh(job.get('beh')),
                   int_lines=job.get('int_lines'), count_lines=job.get('count_lines', False), storage=storage,
                   prior=job.get('prior'), progress=job.get('progress', False))
+    rig.ctx_fail = bool(job.get('ctx_fail'))
     try:
         trace = rig.run()
     finally:
